@@ -252,11 +252,30 @@ class Node(ModelElement):
         if pname == 'name':
             # a new name must be free in the scope the constructors check
             self._check_name_unique(pval)
+        if pname in ('image_ref', 'image_type'):
+            # stored as one graph property: written together with the other half
+            self.set_properties(**{pname: pval})
+            return
         node_sliver = NodeSliver()
         node_sliver.set_property(prop_name=pname, prop_val=pval)
         # write into the graph
         prop_dict = self.topo.graph_model.node_sliver_to_graph_properties_dict(node_sliver)
         self.topo.graph_model.update_node_properties(node_id=self.node_id, props=prop_dict)
+
+    def _complete_image_pair(self, props: dict) -> dict:
+        """
+        image_ref and image_type are stored as one graph property. When only one of them is
+        given take the other half from the graph; refuse when there is none (instead of
+        silently dropping the value).
+        """
+        for one, other in (('image_ref', 'image_type'), ('image_type', 'image_ref')):
+            if props.get(one) is not None and props.get(other) is None:
+                oval = self.get_property(other)
+                if oval is None:
+                    raise TopologyException(f"{one} can only be stored together with {other}: "
+                                            f"use set_properties({one}=..., {other}=...)")
+                props = dict(props, **{other: oval})
+        return props
 
     def set_properties(self, **kwargs):
         """
@@ -264,6 +283,7 @@ class Node(ModelElement):
         :param kwargs:
         :return:
         """
+        kwargs = self._complete_image_pair(kwargs)
         node_sliver = NodeSliver()
         node_sliver.set_properties(**kwargs)
         # write into the graph
